@@ -216,6 +216,8 @@ def run(replay=None):
             stats["expr_boxes"] += 1
             f = dict(x.split("=") for x in isl[0].split()[1:3])
             stats["expr_points"] += int(f["pts"])
+            if "illcond=" in isl[0]:
+                stats["expr_points_illconditioned"] = stats.get("expr_points_illconditioned", 0) + int(isl[0].split("illcond=")[1].split()[0])
             if ivl[0].split()[3] == "0":
                 stats["expr_unflagged"] += 1
             if int(f["bad"]):
